@@ -100,7 +100,7 @@ func TestWorker(t *testing.T) {
 	case "hashes":
 		for i := 0; i < job.MaxRuns; i++ {
 			idx := job.From + i*job.Stride
-			spec := RunSpec{Prop: job.Prop, Tier: job.Tier, Seed: seedFor(job.SeedBase, job.Prop, idx)}
+			spec := RunSpec{Prop: job.Prop, Tier: job.Tier, Seed: seedFor(job.SeedBase, job.Prop, idx), Feat: FeatAll}
 			if en := enumerators[job.Prop]; en != nil {
 				vs := en(t, job.Tier)
 				spec.Variant = vs[idx%len(vs)]
@@ -172,7 +172,7 @@ func workerSearch(t *testing.T, job *Job, enc *json.Encoder) {
 				break
 			}
 		}
-		spec := RunSpec{Prop: job.Prop, Tier: job.Tier}
+		spec := RunSpec{Prop: job.Prop, Tier: job.Tier, Feat: FeatAll}
 		if len(variants) > 0 {
 			spec.Variant = variants[idx%len(variants)]
 			spec.Seed = seedFor(job.SeedBase, job.Prop, idx/len(variants))
